@@ -68,6 +68,15 @@ fn rng_check(st: Option<&mut Stats>, s: NaiveDate, e: NaiveDate, site: Site, met
             return Err(json!({"why": "value differs from the single-date API", "date": d2s(*d), "range_api": res_json(r), "single_date_api": res_json(&want[d])}));
         }
     }
+    if ce(s) % 4 == 1 && n <= 400 {
+        // the other range entry point with a parallelism threshold that keeps it on one thread: callers pass "never in
+        // parallel" as a very large number, not only as a value near the range length
+        let thr = [usize::MAX, usize::MAX / 2 + 1, usize::MAX / 16, 1usize << 40, 2001][(ce(e) as usize) % 5];
+        let blk = prayer_times_dt_rng_block(&p, l, &dr, thr);
+        if blk != want {
+            return Err(json!({"why": "block range API (threshold = never in parallel) differs from the single-date API", "threshold": thr.to_string(), "entries": blk.len(), "want": n}));
+        }
+    }
     Ok(n as u64)
 }
 
